@@ -29,6 +29,7 @@ CONSTANTS
     Lens,         \* payload lengths (>= 2)
     Bufs,         \* receive buffer lengths (>= 1)
     BindKinds,    \* subset of {"any", "lo"}
+    DstPorts,     \* ports that sends and connect() may address
     DstKinds,     \* subset of {"host", "none", "lo", "bcast", "mc"}
     Ops,          \* action alphabet: subset of {"bind","bindeph","drop","connect","join","leave",
                   \*                            "setbc","setml","send","recv","readable"}
@@ -221,7 +222,7 @@ Route(h, p, dst) ==
             ELSE [res |-> "ok", nets |-> {<<dst.h, dst.p>>}, los |-> <<>>]
 
 DstOk(dst) ==
-    /\ dst.p \in Ports
+    /\ dst.p \in DstPorts
     /\ \/ dst.k = "host" /\ "host" \in DstKinds /\ dst.h \in Hosts /\ dst.g = 0
        \/ dst.k = "host" /\ "none" \in DstKinds /\ dst.h = 0 /\ dst.g = 0
        \/ dst.k = "lo" /\ "lo" \in DstKinds /\ dst.h = 0 /\ dst.g = 0
@@ -250,6 +251,12 @@ Accepts(t, id, p, dk) ==
     /\ (b.peer.k = "none" \/ AddrEq(b.peer, sends[id].o))     \* connect filter: matches(target, src)
     /\ (b.kind = "any" \/ dk = "lo")                           \* matches(bind_addr, dst)
     /\ Len(b.q) < Cap                                          \* try_send: Full
+Why(t, id, p, dk) ==
+    LET b == bd[t][p] IN
+    IF b.sid = 0 THEN "unbound"
+    ELSE IF ~(b.peer.k = "none" \/ AddrEq(b.peer, sends[id].o)) THEN "peer"
+    ELSE IF ~(b.kind = "any" \/ dk = "lo") THEN "kind"
+    ELSE IF Len(b.q) >= Cap THEN "full" ELSE "ok"
 QAfter(t, id, p, dk) ==
     IF Accepts(t, id, p, dk) THEN [bd EXCEPT ![t][p].q = Append(@, id)] ELSE bd
 
@@ -260,7 +267,7 @@ Deliver(id, t, p) ==
     /\ bd' = QAfter(t, id, p, "host")
     /\ P_Arrive(id, t, p, "host")
     /\ last' = [a |-> "deliver", id |-> id, h |-> t, p |-> p, dk |-> "host",
-                acc |-> Accepts(t, id, p, "host")]
+                why |-> Why(t, id, p, "host"), cls |-> ArriveClass(id, t, p, "host")]
     /\ UNCHANGED <<grp, lob, eph, flushing, nctl, nrecv>>
 
 \* the oldest loopback task of host h fires
@@ -273,7 +280,7 @@ LoDeliver(h) ==
        /\ P_Arrive(c[1], h, c[2], c[3])
        /\ flushing' = IF Grouped /\ Tail(lob[h]) # <<>> THEN h ELSE 0
        /\ last' = [a |-> "lodeliver", id |-> c[1], h |-> h, p |-> c[2], dk |-> c[3],
-                   acc |-> Accepts(h, c[1], c[2], c[3])]
+                   why |-> Why(h, c[1], c[2], c[3]), cls |-> ArriveClass(c[1], h, c[2], c[3])]
     /\ UNCHANGED <<grp, net, eph, nctl, nrecv>>
 
 ---------------------------------------------------------------------------
@@ -308,27 +315,107 @@ Readable(h, p) ==
 
 ---------------------------------------------------------------------------
 PeerChoices(h) ==
-    {[k |-> "host", h |-> t, p |-> q] : t \in Hosts, q \in Ports}
-        \cup {[k |-> "lo", h |-> h, p |-> q] : q \in Ports}
+    {[k |-> "host", h |-> t, p |-> q] : t \in Hosts, q \in DstPorts}
+        \cup {[k |-> "lo", h |-> h, p |-> q] : q \in DstPorts}
 DstChoices ==
-    {[k |-> "host", h |-> t, g |-> 0, p |-> q] : t \in 0..N, q \in Ports}
-        \cup {[k |-> kk, h |-> 0, g |-> 0, p |-> q] : kk \in {"lo", "bcast"}, q \in Ports}
-        \cup {[k |-> "mc", h |-> 0, g |-> g, p |-> q] : g \in Groups, q \in Ports}
+    {[k |-> "host", h |-> t, g |-> 0, p |-> q] : t \in 0..N, q \in DstPorts}
+        \cup {[k |-> kk, h |-> 0, g |-> 0, p |-> q] : kk \in {"lo", "bcast"}, q \in DstPorts}
+        \cup {[k |-> "mc", h |-> 0, g |-> g, p |-> q] : g \in Groups, q \in DstPorts}
+
+\* The disjuncts of Next are split by case so that TLC's coverage report shows
+\* that every routing class, every delivery outcome and every kind of receive
+\* was exercised (vacuity guard of the check).
+RouteClass(h, p, dst) ==
+    LET r == Route(h, p, dst) IN
+    IF r.res = "err" THEN "refused"
+    ELSE IF dst.k = "bcast" THEN "bcast"
+    ELSE IF dst.k = "mc" THEN (IF r.los # <<>> THEN "mcloop" ELSE IF r.nets # {} THEN "mcnet" ELSE "mcnone")
+    ELSE IF dst.k = "lo" THEN "loop"
+    ELSE IF r.los # <<>> THEN "self" ELSE "remote"
+SendBcast(h, p, dst, len)   == dst.k = "bcast" /\ "send" \in Ops /\ Bound(h, p) /\ DstOk(dst) /\ RouteClass(h, p, dst) = "bcast"   /\ Send(h, p, dst, len)
+SendMcNet(h, p, dst, len)   == dst.k = "mc" /\ "send" \in Ops /\ Bound(h, p) /\ DstOk(dst) /\ RouteClass(h, p, dst) = "mcnet"   /\ Send(h, p, dst, len)
+SendMcLoop(h, p, dst, len)  == dst.k = "mc" /\ "send" \in Ops /\ Bound(h, p) /\ DstOk(dst) /\ RouteClass(h, p, dst) = "mcloop"  /\ Send(h, p, dst, len)
+SendMcNone(h, p, dst, len)  == dst.k = "mc" /\ "send" \in Ops /\ Bound(h, p) /\ DstOk(dst) /\ RouteClass(h, p, dst) = "mcnone"  /\ Send(h, p, dst, len)
+SendLoop(h, p, dst, len)    == dst.k = "lo" /\ "send" \in Ops /\ Bound(h, p) /\ DstOk(dst) /\ RouteClass(h, p, dst) = "loop"    /\ Send(h, p, dst, len)
+SendSelf(h, p, dst, len)    == dst.k = "host" /\ "send" \in Ops /\ Bound(h, p) /\ DstOk(dst) /\ RouteClass(h, p, dst) = "self"    /\ Send(h, p, dst, len)
+SendRemote(h, p, dst, len)  == dst.k = "host" /\ "send" \in Ops /\ Bound(h, p) /\ DstOk(dst) /\ RouteClass(h, p, dst) = "remote"  /\ Send(h, p, dst, len)
+SendRefused(h, p, dst, len) == "send" \in Ops /\ Bound(h, p) /\ DstOk(dst) /\ RouteClass(h, p, dst) = "refused" /\ Send(h, p, dst, len)
+
+\* delivery outcome: the statement is silent ("may"), else by what the host did
+Outcome(t, id, p, dk) ==
+    IF ArriveClass(id, t, p, dk) = "may" THEN "silent" ELSE Why(t, id, p, dk)
+DeliverQueued(id, t, p) == <<id, t, p>> \in net /\ Outcome(t, id, p, "host") = "ok" /\ Deliver(id, t, p)
+DeliverFull(id, t, p) == <<id, t, p>> \in net /\ Outcome(t, id, p, "host") = "full" /\ Deliver(id, t, p)
+DeliverPeer(id, t, p) == <<id, t, p>> \in net /\ Outcome(t, id, p, "host") = "peer" /\ Deliver(id, t, p)
+DeliverKind(id, t, p) == <<id, t, p>> \in net /\ Outcome(t, id, p, "host") = "kind" /\ Deliver(id, t, p)
+DeliverUnbound(id, t, p) == <<id, t, p>> \in net /\ Outcome(t, id, p, "host") = "unbound" /\ Deliver(id, t, p)
+DeliverSilent(id, t, p) == <<id, t, p>> \in net /\ Outcome(t, id, p, "host") = "silent" /\ Deliver(id, t, p)
+LoOutcome(h) == Outcome(h, Head(lob[h])[1], Head(lob[h])[2], Head(lob[h])[3])
+LoDeliverQueued(h)   == lob[h] # <<>> /\ LoOutcome(h) = "ok" /\ LoDeliver(h)
+LoDeliverDropped(h)  == lob[h] # <<>> /\ LoOutcome(h) \in {"full", "peer", "kind", "unbound"} /\ LoDeliver(h)
+LoDeliverSilent(h)   == lob[h] # <<>> /\ LoOutcome(h) = "silent" /\ LoDeliver(h)
+
+RecvKind(h, p, buf) ==
+    LET b == bd[h][p] IN
+    IF b.rxb # <<>> THEN "buffered"
+    ELSE IF b.q = <<>> THEN "empty"
+    ELSE IF buf < sends[Head(b.q)].len THEN "cut" ELSE "whole"
+RecvWhole(h, p, buf)    == Bound(h, p) /\ RecvKind(h, p, buf) = "whole"    /\ Recv(h, p, buf)
+RecvCut(h, p, buf)      == Bound(h, p) /\ RecvKind(h, p, buf) = "cut"      /\ Recv(h, p, buf)
+RecvBuffered(h, p, buf) == Bound(h, p) /\ RecvKind(h, p, buf) = "buffered" /\ Recv(h, p, buf)
+\* (an empty receive that leaves every variable unchanged is a stuttering step:
+\* skipped in the exhaustive check, kept in replayable behaviours)
+RecvEmpty(h, p, buf)    == Bound(h, p) /\ RecvKind(h, p, buf) = "empty" /\ (Grouped \/ py[bd[h][p].sid] # {})
+                           /\ Recv(h, p, buf)
+
+ReadableOk(h, p)      == Bound(h, p) /\ (bd[h][p].rxb # <<>> \/ bd[h][p].q # <<>>) /\ Readable(h, p)
+ReadablePending(h, p) == Bound(h, p) /\ bd[h][p].rxb = <<>> /\ bd[h][p].q = <<>> /\ Grouped /\ Readable(h, p)
+
+IsMember(h, p) == \E g \in Groups : <<g, p, h>> \in grp
+DropMember(h, p) == Bound(h, p) /\ IsMember(h, p) /\ DropSock(h, p)
+DropLoaded(h, p) == Bound(h, p) /\ ~IsMember(h, p) /\ (bd[h][p].q # <<>> \/ bd[h][p].rxb # <<>>) /\ DropSock(h, p)
+DropPlain(h, p)  == Bound(h, p) /\ ~IsMember(h, p) /\ bd[h][p].q = <<>> /\ bd[h][p].rxb = <<>> /\ DropSock(h, p)
+BindOk(h, k, p)    == ~Bound(h, p) /\ Bind(h, k, p)
+BindInUse(h, k, p) == Bound(h, p) /\ Bind(h, k, p)
+LeaveOk(h, p, g)  == <<g, p, h>> \in grp /\ Leave(h, p, g)
+LeaveErr(h, p, g) == <<g, p, h>> \notin grp /\ Leave(h, p, g)
 
 Next ==
-    \/ \E h \in Hosts, k \in BindKinds, p \in FixedPorts : Bind(h, k, p)
+    \/ \E h \in Hosts, k \in BindKinds, p \in FixedPorts : BindOk(h, k, p)
+    \/ \E h \in Hosts, k \in BindKinds, p \in FixedPorts : BindInUse(h, k, p)
     \/ \E h \in Hosts, k \in BindKinds : BindEph(h, k)
-    \/ \E h \in Hosts, p \in Ports : DropSock(h, p)
+    \/ \E h \in Hosts, p \in Ports : DropMember(h, p)
+    \/ \E h \in Hosts, p \in Ports : DropLoaded(h, p)
+    \/ \E h \in Hosts, p \in Ports : DropPlain(h, p)
     \/ \E h \in Hosts, p \in Ports : \E peer \in PeerChoices(h) : Connect(h, p, peer)
     \/ \E h \in Hosts, p \in Ports, g \in Groups : Join(h, p, g)
-    \/ \E h \in Hosts, p \in Ports, g \in Groups : Leave(h, p, g)
+    \/ \E h \in Hosts, p \in Ports, g \in Groups : LeaveOk(h, p, g)
+    \/ \E h \in Hosts, p \in Ports, g \in Groups : LeaveErr(h, p, g)
     \/ \E h \in Hosts, p \in Ports, on \in BOOLEAN : SetBc(h, p, on)
     \/ \E h \in Hosts, p \in Ports, on \in BOOLEAN : SetMl(h, p, on)
-    \/ \E h \in Hosts, p \in Ports, len \in Lens : \E dst \in DstChoices : Send(h, p, dst, len)
-    \/ \E c \in net : Deliver(c[1], c[2], c[3])
-    \/ \E h \in Hosts : LoDeliver(h)
-    \/ \E h \in Hosts, p \in Ports, buf \in Bufs : Recv(h, p, buf)
-    \/ \E h \in Hosts, p \in Ports : Readable(h, p)
+    \/ \E h \in Hosts, p \in Ports, len \in Lens : \E dst \in DstChoices : SendBcast(h, p, dst, len)
+    \/ \E h \in Hosts, p \in Ports, len \in Lens : \E dst \in DstChoices : SendMcNet(h, p, dst, len)
+    \/ \E h \in Hosts, p \in Ports, len \in Lens : \E dst \in DstChoices : SendMcLoop(h, p, dst, len)
+    \/ \E h \in Hosts, p \in Ports, len \in Lens : \E dst \in DstChoices : SendMcNone(h, p, dst, len)
+    \/ \E h \in Hosts, p \in Ports, len \in Lens : \E dst \in DstChoices : SendLoop(h, p, dst, len)
+    \/ \E h \in Hosts, p \in Ports, len \in Lens : \E dst \in DstChoices : SendSelf(h, p, dst, len)
+    \/ \E h \in Hosts, p \in Ports, len \in Lens : \E dst \in DstChoices : SendRemote(h, p, dst, len)
+    \/ \E h \in Hosts, p \in Ports, len \in Lens : \E dst \in DstChoices : SendRefused(h, p, dst, len)
+    \/ \E id \in 1..MaxSend, t \in Hosts, p \in Ports : DeliverQueued(id, t, p)
+    \/ \E id \in 1..MaxSend, t \in Hosts, p \in Ports : DeliverFull(id, t, p)
+    \/ \E id \in 1..MaxSend, t \in Hosts, p \in Ports : DeliverPeer(id, t, p)
+    \/ \E id \in 1..MaxSend, t \in Hosts, p \in Ports : DeliverKind(id, t, p)
+    \/ \E id \in 1..MaxSend, t \in Hosts, p \in Ports : DeliverUnbound(id, t, p)
+    \/ \E id \in 1..MaxSend, t \in Hosts, p \in Ports : DeliverSilent(id, t, p)
+    \/ \E h \in Hosts : LoDeliverQueued(h)
+    \/ \E h \in Hosts : LoDeliverDropped(h)
+    \/ \E h \in Hosts : LoDeliverSilent(h)
+    \/ \E h \in Hosts, p \in Ports, buf \in Bufs : RecvWhole(h, p, buf)
+    \/ \E h \in Hosts, p \in Ports, buf \in Bufs : RecvCut(h, p, buf)
+    \/ \E h \in Hosts, p \in Ports, buf \in Bufs : RecvBuffered(h, p, buf)
+    \/ \E h \in Hosts, p \in Ports, buf \in Bufs : RecvEmpty(h, p, buf)
+    \/ \E h \in Hosts, p \in Ports : ReadableOk(h, p)
+    \/ \E h \in Hosts, p \in Ports : ReadablePending(h, p)
 
 Spec == Init /\ [][Next]_vars
 
@@ -348,8 +435,7 @@ TypeOK ==
     /\ \A h \in Hosts : eph[h] \in EphPorts
 \* the multicast table only ever holds addresses of live sockets that joined
 GroupsMatch ==
-    grp = {<<g, socks[s].p, socks[s].h>> : s \in Live, g \in Groups} \cap
-          {m \in Groups \X Ports \X Hosts : \E s \in Live : socks[s].h = m[3] /\ socks[s].p = m[2] /\ m[1] \in socks[s].grp}
+    grp = UNION {{<<g, socks[s].p, socks[s].h>> : g \in socks[s].grp} : s \in Live}
 \* what is queued at a socket is what the statement requires to be there,
 \* plus at most what it leaves open
 QueueMatches ==
@@ -370,13 +456,6 @@ NothingExtra ==
            <<h, lob[h][i][2], lob[h][i][3]>> \in (sends[lob[h][i][1]].cm \cup sends[lob[h][i][1]].cy)
 
 ImplInv == TypeOK /\ GroupsMatch /\ QueueMatches /\ NothingLost /\ NothingExtra
-
-\* vacuity witnesses (expected to be violated: TLC must find such states)
-W_MayPending  == \A s \in Sids : py[s] = {}
-W_Overflow    == \A id \in Ids : \A c \in sends[id].cm :
-                    (<<id, c[1], c[2], c[3]>> \in arrd /\ \E s \in LiveAt(c[1], c[2]) : s \in sends[id].e0)
-                        => \E s \in Sids : <<id, s>> \in got \/ id \in pm[s] \cup py[s]
-W_Rebound     == \A id \in Ids : \A s \in Sids : id \in py[s] => s <= sends[id].ns
 
 View == <<pvars, ivars>>
 =============================================================================
